@@ -149,3 +149,43 @@ Example C04_flush_prefix_decodes_example : forall dict_word transform_tbl,
               {| d_out := o_init []; d_ring := ring_init; d_info := PE; d_bits := rbits |} = Continue sD /\
        d_bits sD = [] /\ rev' (o_rev (d_out sD)) = ex_input.
 Proof. exact prefix_example. Qed.
+
+(* ---------------------------------------------------------------- 'completed FLUSH' => at rest, for every preceding script *)
+(* The link between C04_aligned (one FLUSH call, premises about the state before it) and C04_flush_prefix_decodes (the
+   boolean at_rest on the final state): for EVERY script cs of PROCESS / FLUSH / FINISH / EMIT_METADATA calls run from the
+   initial state, on either path, if the script is followed by a FLUSH call that returns true with all its input consumed
+   (g_run_calls demands that of every call) and nothing is pending afterwards (has_more_output = false: the flush has
+   completed) and the stream is not finished, the encoder is at rest.  Only answer_ok is needed of the answers. *)
+From V Require Import proofs.Roundtrip_rest.
+Theorem C04_completed_flush_at_rest : forall (C : Type) (c_op : C -> opk) (c_in : C -> list N) (c_cap : C -> N)
+    (params : list (N * N)) (cs : list C) (c : C) (answers : list answer) s' emitted,
+  let s0 := state0 params answers in
+  forallb answer_ok answers = true ->
+  c_op c = OpFlush ->
+  g_run_calls C c_op c_in c_cap s0 (cs ++ [c]) [] = Done (true, s', emitted) ->
+  has_more_output s' = false -> sstate_ s' <> SFinished ->
+  at_rest s' = true.
+Proof. exact completed_flush_at_rest. Qed.
+Print Assumptions C04_completed_flush_at_rest.
+
+(* ... hence C04_flush_prefix_decodes in the 'last call is a completed FLUSH' phrasing, both paths *)
+Theorem C04_completed_flush_prefix_decodes : forall (C : Type) (c_op : C -> opk) (c_in : C -> list N) (c_cap : C -> N)
+    dict_word transform_tbl (params : list (N * N)) (cs : list C) (c : C) (answers : list answer) s' emitted B,
+  let s0 := state0 params answers in
+  let s1 := ensure_initialized s0 in
+  let input := g_input C c_op c_in (cs ++ [c]) in
+  forallb answer_ok3s answers = true ->
+  meta_bytes_ok C c_op c_in (cs ++ [c]) = true -> lenN input < 2 ^ 64 ->
+  kept_ann (g_ann C c_op c_in c_cap s0 (cs ++ [c])) = true ->
+  faithful_ann dict_word transform_tbl B (large_window s1) (stream_wbits s1) input 0
+               (if fastcond s1 then repos 0 (g_ann C c_op c_in c_cap s0 (cs ++ [c])) else g_ann C c_op c_in c_cap s0 (cs ++ [c])) ->
+  c_op c = OpFlush ->
+  g_run_calls C c_op c_in c_cap s0 (cs ++ [c]) [] = Done (true, s', emitted) ->
+  has_more_output s' = false -> sstate_ s' <> SFinished ->
+  exists rbits n sD,
+    read_wbits true (bytes_bits emitted) = Ok ((stream_wbits s1, large_window s1), rbits) /\ (n <= length rbits)%nat /\
+    loop_n (N.of_nat n) (meta_block dict_word transform_tbl (large_window s1) (2 ^ stream_wbits s1 - 16) B)
+           {| d_out := o_init []; d_ring := ring_init; d_info := PE; d_bits := rbits |} = Continue sD /\
+    d_bits sD = [] /\ rev' (o_rev (d_out sD)) = input.
+Proof. exact completed_flush_prefix_decodes. Qed.
+Print Assumptions C04_completed_flush_prefix_decodes.
